@@ -566,6 +566,38 @@ func runC16(r *Run) {
 		}
 		c16Diff(r, roots, as, ar, "diff-random", i%4 == 0)
 	}
+	// grafted proofs: one tree hash fewer, an interior node presented as the last leaf hash (fixed 7283819)
+	for n := 4; n <= r.pick(40, 200); n += 2 {
+		c16Graft(r, r.randHashes(n))
+	}
 	c16Data(r)
 	c16Sector(r, r.pick(2, 12))
+}
+
+// c16Graft: trimming (or freeing) the last of an even number of sectors. The honest proof ends with the root of sector
+// n-2 as a one-leaf subtree followed by the leaf hash of sector n-1; the grafted proof drops that tree hash and presents
+// node(root[n-2], root[n-1]) as the leaf hash, with the root of the first n-2 sectors as the new root.
+func c16Graft(r *Run, roots []types.Hash256) {
+	n := uint64(len(roots))
+	as := []rhp2.RPCWriteAction{{Type: rhp2.RPCWriteActionTrim, A: 1}}
+	oldRoot := rhp2.MetaRoot(roots)
+	th, _ := rhp2.BuildDiffProof(as, roots)
+	if len(th) == 0 {
+		return
+	}
+	gth := th[:len(th)-1]
+	glh := []types.Hash256{types.Hash256(blake2b.SumPair(roots[n-2], roots[n-1]))}
+	gnew := rhp2.MetaRoot(roots[:n-2])
+	res := tryBool(func() bool { return rhp2.VerifyDiffProof(as, n, gth, glh, oldRoot, gnew, nil) })
+	r.emit(true, "diff-graft", "c16.verify_diff", cat(actionToks(as), []string{hx(n)}, hashToks(gth), hashToks(glh), []string{hb(oldRoot[:]), hb(gnew[:])}, hashToks(nil)), res)
+	if len(res) != 1 || res[0] != "0" {
+		r.violate("c16.diff-graft", "VerifyDiffProof accepts a proof with one tree hash fewer and an interior node as leaf hash (n=%d, trim 1): %v", n, res)
+	}
+	freed := []uint64{n - 1}
+	ft := []string{hx(1), hx(n - 1)}
+	res = tryBool(func() bool { return rhp4.VerifyFreeSectorsProof(gth, glh, freed, n, oldRoot, gnew) })
+	r.emit(true, "free-graft", "c16.verify_free", cat(ft, []string{hx(n)}, hashToks(gth), hashToks(glh), []string{hb(oldRoot[:]), hb(gnew[:])}), res)
+	if len(res) != 1 || res[0] != "0" {
+		r.violate("c16.free-graft", "VerifyFreeSectorsProof accepts a proof with one tree hash fewer and an interior node as leaf hash (n=%d, freed %d): %v", n, n-1, res)
+	}
 }
